@@ -303,8 +303,11 @@ def _jsonable(x):
 
 def run_impl(h, case):
     """Run the implementation on one case under an alarm; exceptions become observations."""
+    # the budget is CPU time of this process (a loaded machine must not turn into an alarm); wall clock is only a backstop
+    signal.signal(signal.SIGPROF, _alarm)
     signal.signal(signal.SIGALRM, _alarm)
-    signal.alarm(h.CASE_TIMEOUT)
+    signal.setitimer(signal.ITIMER_PROF, h.CASE_TIMEOUT)
+    signal.alarm(h.CASE_TIMEOUT * 15)
     try:
         obs = h.execute(case)
     except CaseTimeout:
@@ -312,6 +315,7 @@ def run_impl(h, case):
     except Exception as e:  # the harness itself must catch expected exceptions
         obs = {'harness_exception': type(e).__name__ + ': ' + str(e), 'traceback': traceback.format_exc()[-1500:]}
     finally:
+        signal.setitimer(signal.ITIMER_PROF, 0)
         signal.alarm(0)
     return obs
 
